@@ -209,12 +209,6 @@ theorem exp2_1023 : TwoFloat.exp2 ⟨f64lit 0x408ff80000000000, F64.zero⟩ = Tw
 theorem exp2_minus_1100 : TwoFloat.exp2 ⟨f64lit 0xc091300000000000, F64.zero⟩ = ⟨F64.zero, F64.zero⟩ := by
   decide +kernel
 
-/-- (−2)^3 = −8: the sign comes from the parity of the integer exponent -/
-theorem powf_neg_two_cubed :
-    TwoFloat.powf ⟨f64lit 0xc000000000000000, F64.zero⟩ ⟨f64lit 0x4008000000000000, F64.zero⟩
-      = ⟨f64lit 0xc020000000000000, F64.negZero⟩ := by
-  decide +kernel
-
 /-- the full pipeline on a non-trivial argument, in the kernel: `exp(1)` is bit-for-bit the published
 constant `consts::E`, and it passes the panic-freedom predicate -/
 example : TwoFloat.exp ⟨F64.one, F64.zero⟩ = consts.E ∧ TwoFloat.exp.pf ⟨F64.one, F64.zero⟩ = true := by
